@@ -63,7 +63,8 @@ def s_format(obj, spec=""):
     from crosshair.libimpl.builtinslib import AnySymbolicStr
     with NoTracing():
         num = isinstance(obj, CrossHairValue) and not isinstance(obj, AnySymbolicStr)
-    if num or (type(obj) in (list, tuple) and _has_sym(obj)):
+    if num or (type(obj) in (list, tuple) and _has_sym(obj)) or \
+            (type(obj) is dict and _has_sym(list(obj.values()))):
         return "<sym>"          # message text is never observed by a property; CrossHair's format would realise
     return format(obj, spec)
 
@@ -318,13 +319,18 @@ def numpy_stream_layer(get_stream, on_seed=None, seed_contract=False):
         return get_stream().unit()
 
     def choice(self, a, size=None, replace=True, p=None):
-        if size is not None or p is not None:
-            raise sym.Inconclusive("np.random.choice(size/p) not modelled")
-        if isinstance(a, int):
-            return get_stream().index(a)
-        a = list(a)
-        i = get_stream().index(len(a))
-        return a[int(i)]
+        items = list(range(a)) if isinstance(a, int) else list(a)
+        if p is not None:          # support of the distribution: entries with a positive probability (p is concrete)
+            support = [x for x, px in zip(items, list(p)) if px > 0]
+            items = support if (replace or len(support) >= (size or 1)) else items
+        if size is None:
+            return items[int(get_stream().index(len(items)))]
+        picks = []
+        pool = list(items)
+        for _ in range(int(size)):
+            i = int(get_stream().index(len(pool)))
+            picks.append(pool[i] if replace else pool.pop(i))
+        return _np.array(picks)
 
     def randint(self, low, high=None, size=None, dtype=int):
         if size is not None:
@@ -364,8 +370,21 @@ def stdlib_stream_layer(get_stream):
 
     def random(self):
         return get_stream().unit()
-    return {_random.Random.randint: randint, _random.Random.random: random,
-            "__replay__": [(_random, "randint", lambda a, b: randint(None, a, b)), (_random, "random", lambda: random(None))]}
+
+    def sample(self, population, k, **kw):
+        pool, out = list(population), []
+        for _ in range(k):
+            out.append(pool.pop(int(get_stream().index(len(pool)))))
+        return out
+
+    def choice(self, seq):
+        seq = list(seq)
+        return seq[int(get_stream().index(len(seq)))]
+    return {_random.Random.randint: randint, _random.Random.random: random, _random.Random.sample: sample,
+            _random.Random.choice: choice,
+            "__replay__": [(_random, "randint", lambda a, b: randint(None, a, b)), (_random, "random", lambda: random(None)),
+                           (_random, "sample", lambda pop, k, **kw: sample(None, pop, k)),
+                           (_random, "choice", lambda seq: choice(None, seq))]}
 
 
 # --------------------------------------------------------------------------------------------------------- pools
